@@ -92,6 +92,11 @@ def run(ctx):
                 while self.pr is None:
                     self.pr = sc.gen_qp_instance(rng, e)
                 self.args = sr.cvx_args(self.pr, rng, sparseG=rng.random() < 0.3, sparseP=rng.random() < 0.3)
+                if rng.random() < 0.3:
+                    ps, ds, _, _ = sr.start_dicts(e, self.pr, rng.choice(["primal", "dual", "both"]), rng)
+                    iv = {}
+                    iv.update(ps or {}); iv.update(ds or {})
+                    self.kw["iv"] = iv
             elif e in ("cpl", "cp", "gp"):
                 self.nl = nl.gen_cpl(rng) if e == "cpl" else nl.gen_gp(rng) if e == "gp" else nl.gen_cp(rng)
                 p_ = self.nl
@@ -100,7 +105,12 @@ def run(ctx):
                 if e == "gp":
                     self.args["F"] = sr.mk(p_.Fgp); self.args["g"] = sr.mk(p_.ggp); self.args["K"] = list(p_.K)
                 self.Flog = []
-                self.F = p_.make_F(self.Flog) if e != "gp" else None
+                self.F = None
+                if e != "gp":
+                    # in half of the calls the caller keeps the start point that F() hands out
+                    self.F = p_.make_F(self.Flog, keep_x0=rng.random() < 0.5)
+                    if self.F.x0_object is not None:
+                        self.args["x0-returned-by-F"] = self.F.x0_object
             elif e == "op":
                 from cvxopt.modeling import variable, op, dot
                 self.pr = None
@@ -117,7 +127,7 @@ def run(ctx):
 
         def images(self):
             im = {k: freeze(v) for k, v in self.args.items()}
-            for k in ("ps", "ds"):
+            for k in ("ps", "ds", "iv"):
                 if self.kw.get(k) is not None:
                     im[k] = freeze(self.kw[k])
             return im
@@ -141,9 +151,9 @@ def run(ctx):
                 return solvers.sdp(a["c"], a["Gl"], a["hl"], a["Gs"], a["hs"], a["A"], a["b"], primalstart=self.kw.get("ps"),
                                    dualstart=self.kw.get("ds"), **kw)
             if e == "coneqp":
-                return solvers.coneqp(a["P"], a["q"], a["G"], a["h"], a["dims"], a["A"], a["b"], **kw)
+                return solvers.coneqp(a["P"], a["q"], a["G"], a["h"], a["dims"], a["A"], a["b"], initvals=self.kw.get("iv"), **kw)
             if e == "qp":
-                return solvers.qp(a["P"], a["q"], a["G"], a["h"], a["A"], a["b"], **kw)
+                return solvers.qp(a["P"], a["q"], a["G"], a["h"], a["A"], a["b"], initvals=self.kw.get("iv"), **kw)
             if e == "cpl":
                 return solvers.cpl(a["c"], self.F, a["G"], a["h"], a["dims"], a["A"], a["b"], **kw)
             if e == "cp":
